@@ -36,7 +36,7 @@ func (c14) Assumptions() []string {
 }
 func (c14) Floor(tier string) int {
 	if tier == "thorough" {
-		return 60
+		return 40
 	}
 	return 6
 }
